@@ -95,7 +95,13 @@ pub fn case(idx: usize, mode: &str, src: &str, accepted: bool, origin: &str) -> 
         _ => vec![],
     };
     let uniq = main.iter().all(|m| src.matches(&crate::hash::lit(m)).count() + src.matches(&format!("{m} :")).count() == 1);
-    json!({"idx": idx, "kind": "bind", "origin": origin, "src": src.chars().take(2000).collect::<String>(), "methods": main.iter().map(|m| cps(m)).collect::<Vec<_>>(), "count_methods": uniq as u8, "gens": gens})
+    // definition names that every target keeps as they are (plain identifiers that are not a keyword anywhere): for these
+    // "referenced implies declared" can be decided on the token stream of the output
+    let kw = ["type", "interface", "class", "return", "function", "self", "Self", "var", "new", "import", "export", "let", "const", "module", "public", "func", "query", "shared", "actor", "async", "object",
+              "enum", "struct", "impl", "trait", "fn", "mod", "use", "pub", "crate", "super", "in", "for", "if", "else", "while", "do", "switch", "case", "default", "null", "true", "false", "void", "this", "with",
+              "Principal", "Nat", "Int", "Text", "Bool", "Blob", "Any", "None", "Nat8", "Nat16", "Nat32", "Nat64", "Int8", "Int16", "Int32", "Int64", "Float", "Char", "Error", "ActorMethod", "IDL", "Array", "Uint8Array", "BigInt", "number", "string", "boolean", "bigint", "undefined"];
+    let defs: Vec<Value> = c.env.0.keys().filter(|n| { let mut cs = n.chars(); cs.next().map(|c| c.is_ascii_alphabetic()).unwrap_or(false) && n.chars().all(|c| c.is_ascii_alphanumeric() || c == '_') && !n.ends_with('_') && !kw.contains(&n.as_str()) }).map(|n| cps(n)).collect();
+    json!({"idx": idx, "kind": "bind", "origin": origin, "src": src.chars().take(2000).collect::<String>(), "methods": main.iter().map(|m| cps(m)).collect::<Vec<_>>(), "count_methods": uniq as u8, "gens": gens, "defs": defs})
 }
 
 /// definitions the binding has to emit: those reachable from the main service (all of them when there is none)
